@@ -212,6 +212,21 @@ def main(argv=None):
             tail = '' if rep.get('failing_input') else ' no-failing-input-found'
             print('VIOLATION property=%s replay=%s obligation=%s%s' % (pid, path, ident, tail))
         return 1
+    if tier == 'thorough' and extras:
+        for u_, pr in (extras.get('reachability') or {}).items():
+            if pr.get('status') == 'vacuous': undecided.append('self-test: unit %s: assert(false) behind the preconditions of %s verifies (vacuous contract)' % (u_, ', '.join(pr['not_reached'][:5])))
+        for e_ in extras.get('sensitivity') or []:
+            if e_['outcome'] in ('missed', 'other_property_only', 'inapplicable'): undecided.append('self-test: sensitivity catalogue entry %s is %s' % (e_['id'], e_['outcome']))
+        for e_ in extras.get('equivalent_edits') or []:
+            if e_['outcome'] == 'false_alarm': undecided.append('self-test: behaviour-preserving edit %s fails %s' % (e_['id'], e_.get('obligations')))
+        bc = extras.get('bounded_corpus') or {}
+        if bc.get('discrepancies'):
+            d = bc['first']
+            os.makedirs(os.path.join(VERIF, 'replays'), exist_ok=True)
+            path = os.path.join(VERIF, 'replays', '%s.bounded.corpus.json' % pid)
+            json.dump(dict(property=pid, obligation='bounded differential corpus (thorough tier)', level='bounded (not proof)', failing_input=d['case'], expected=d['expected'], observed=d['observed'], explanation=d['why']), open(path, 'w'), indent=1)
+            print('VIOLATION property=%s replay=%s obligation=bounded-corpus input=%s' % (pid, path, json.dumps(d['case'].get('s', d['case'].get('script')))))
+            return 1
     if undecided:
         for u in undecided: print('UNDECIDED property=%s %s' % (pid, u))
         return 2
